@@ -1,0 +1,14 @@
+//go:build verif
+
+package segmenter
+
+// VerifAttributes exposes the raw break attributes computed by [Segmenter.Init]
+// (bit 0: line boundary, bit 1: mandatory line boundary, bit 2: grapheme boundary,
+// bit 3: word boundary). Used by the external verification harness only.
+func VerifAttributes(s *Segmenter) []uint8 {
+	out := make([]uint8, len(s.attributes))
+	for i, a := range s.attributes {
+		out[i] = uint8(a)
+	}
+	return out
+}
